@@ -18,7 +18,7 @@ EXPLANATION = (
     "be re-lexed as another literal: every such constructor tests the formatted child with a predicate that answers true for "
     "every string whose quote type is Brackets, whatever its level, and pads it. Decides this alphabet/shape condition, not the transducer over all escape tilings (the "
     "property's own quantifier asks for exhaustive enumeration of strings, a dynamic technique)."
-    "Later rounds: (R-EXACTREAD) the input text is never decoded lossily before it is parsed; InterpolatedString segments are rebuilt from the input literal only. Rounds 17-19: (R-PRINT).")
+    "Later rounds: (R-EXACTREAD) the input text is never decoded lossily before it is parsed; InterpolatedString segments are rebuilt from the input literal only. Rounds 17-19: (R-PRINT). Rounds 20-21: (R-PARSE(input)) the text parsed is the text given.")
 ASSUMPTIONS = ["the `regex` crate implements the syntax as documented; leftmost-first alternation",
                "ESCAPE_ALPHABET in r_regex.py restates the escape sequences of Lua 5.1-5.4 / LuaJIT / Luau",
                "rustc MIR and Instance::try_resolve are trusted"]
